@@ -424,6 +424,13 @@ impl<R: Read + Seek> Seek for CompressionLayerReader<'_, R> {
                         // Move the underlayer at the start of the block
                         let old_state =
                             std::mem::replace(&mut self.state, CompressionLayerReaderState::Empty);
+                        if matches!(old_state, CompressionLayerReaderState::Empty) {
+                            // A previous operation failed midway and the inner reader is lost
+                            return Err(Error::WrongReaderState(
+                                "[Compression Layer] Unusable after a previous error".to_string(),
+                            )
+                            .into());
+                        }
                         let mut inner = old_state.into_inner();
                         self.sync_inner_with_uncompressed_pos(&mut inner, rounded_pos)?;
 
